@@ -48,6 +48,8 @@ pub struct Gen {
     pub progs: Vec<Vec<POp>>,
     pub walks: Vec<Vec<u8>>,
     pub pct: Vec<(Vec<u8>, Vec<u32>)>,
+    /// two-preemption schedules: (participant order selector, steps of the first, steps of the second)
+    pub pre2: Vec<(u8, u32, u32)>,
 }
 
 pub fn gen(with_adversary: bool, kinds: Vec<u8>, caps: Vec<usize>, max_ops: usize) -> impl Strategy<Value = Gen> {
@@ -58,12 +60,12 @@ pub fn gen_with(with_adversary: bool, kinds: Vec<u8>, caps: Vec<usize>, max_ops:
     gen_layout(kinds, caps).prop_flat_map(move |layout| {
         let k = op_kinds(layout.kind);
         let adv = if with_adversary { prop::collection::vec(gen_prog(vec![PKind::Adversary], 2, 3), 0..2).boxed() } else { Just(vec![]).boxed() };
-        (Just(layout), prop::collection::vec(gen_prog(k, max_ops, keys), 2..4), adv, prop::collection::vec(prop::collection::vec(0u8..4, 0..60), 0..6), prop::collection::vec((prop::collection::vec(0u8..8, 4), prop::collection::vec(0u32..150, 0..4)), 0..4))
+        (Just(layout), prop::collection::vec(gen_prog(k, max_ops, keys), 2..4), adv, prop::collection::vec(prop::collection::vec(0u8..4, 0..60), 0..6), prop::collection::vec((prop::collection::vec(0u8..8, 4), prop::collection::vec(0u32..150, 0..4)), 0..4), prop::collection::vec((0u8..6, 0u32..70, 0u32..50), 0..8))
     })
-    .prop_map(|(layout, mut progs, adv, walks, pct)| {
+    .prop_map(|(layout, mut progs, adv, walks, pct, pre2)| {
         progs.truncate(if adv.is_empty() { 3 } else { 2 });
         progs.extend(adv);
-        Gen { layout, progs, walks, pct }
+        Gen { layout, progs, walks, pct, pre2 }
     })
 }
 
@@ -75,6 +77,16 @@ pub fn strategies(root: &Path, g: &Gen, opts: RunOpts, enumerate: bool) -> Vec<S
     }
     v.extend(g.walks.iter().cloned().map(Sched::Walk));
     v.extend(g.pct.iter().cloned().map(|(prio, changes)| Sched::Pct { prio, changes }));
+    let n = g.progs.len();
+    for (sel, at, at2) in &g.pre2 {
+        // the sel-th rotation/reflection of the participant order
+        let mut order: Vec<usize> = (0..n).collect();
+        order.rotate_left(*sel as usize % n);
+        if sel / 3 == 1 {
+            order[1..].reverse();
+        }
+        v.push(Sched::Preempt2 { order, at: *at, at2: *at2 });
+    }
     v
 }
 
@@ -111,7 +123,7 @@ pub fn run(ctx: &Ctx) -> Report {
                 let lost = *r.as_ref().unwrap_or(&0);
                 rep.case(if lost > 0 { Some(fnv(format!("{:?}{:?}{:?}", g.layout, g.progs, ex.picks).as_bytes())) } else { None });
                 rep.extra_add("scheduling_steps", ex.sched_steps);
-                rep.label(match s { Sched::Walk(_) => "strategy:random walk", Sched::Pct { .. } => "strategy:PCT", _ => "strategy:single preemption (enumerated)" });
+                rep.label(match s { Sched::Walk(_) => "strategy:random walk", Sched::Pct { .. } => "strategy:PCT", Sched::Preempt2 { .. } => "strategy:two preemptions (sampled)", _ => "strategy:single preemption (enumerated)" });
                 rep.label(["layout:plain", "layout:sharded", "layout:stacked over plain", "layout:stacked over sharded"][g.layout.kind as usize % 4]);
                 if g.progs.iter().any(|p| p.iter().any(|o| o.kind == PKind::Adversary)) {
                     rep.label("with adversary");
